@@ -1,8 +1,95 @@
 use vlib::engine::Tier;
 
+/// The check runs in a child process; the parent only interprets how it ended, so that an abort,
+/// a stack overflow or a watchdog kill inside the code under test still yields a replay file.
+fn parent(args: &[String]) -> i32 {
+    let exe = std::env::current_exe().expect("current_exe");
+    let mut child = std::process::Command::new(exe)
+        .args(&args[1..])
+        .env("VCHECK_CHILD", "1")
+        .spawn()
+        .expect("spawn child");
+    let pid = child.id();
+    let status = child.wait().expect("wait");
+    let prefix = vlib::props_crash::slot_prefix(pid);
+    let cleanup = |keep: bool| {
+        let dir = vlib::props_crash::slot_dir();
+        if let Ok(rd) = std::fs::read_dir(&dir) {
+            for e in rd.flatten() {
+                let p = e.path().to_string_lossy().to_string();
+                if p.starts_with(&prefix) && !keep {
+                    let _ = std::fs::remove_file(&p);
+                }
+            }
+        }
+    };
+    match status.code() {
+        Some(c) if (0..=2).contains(&c) => {
+            cleanup(false);
+            c
+        }
+        other => {
+            // abnormal end: look for in-flight inputs
+            let mut reported = 0;
+            let dir = vlib::props_crash::slot_dir();
+            if let Ok(rd) = std::fs::read_dir(&dir) {
+                let mut paths: Vec<String> = rd
+                    .flatten()
+                    .map(|e| e.path().to_string_lossy().to_string())
+                    .filter(|p| p.starts_with(&prefix) && !p.ends_with(".hang"))
+                    .collect();
+                paths.sort();
+                let any_hang = paths.iter().any(|p| std::path::Path::new(&format!("{}.hang", p)).exists());
+                for p in paths {
+                    let hang = std::path::Path::new(&format!("{}.hang", p)).exists();
+                    if any_hang && !hang {
+                        continue;
+                    }
+                    if let Some((id, target, bytes)) = vlib::props_crash::read_slot(&p) {
+                        let sig = if hang {
+                            format!("hang:{}", target)
+                        } else {
+                            format!("abort:{}", target)
+                        };
+                        let body = serde_json::json!({
+                            "property": id,
+                            "sub": "bytes",
+                            "sig": sig,
+                            "detail": format!("child process ended abnormally ({:?}) while this input was in flight", other),
+                            "case": {"target": target, "bytes": vlib::props_codec::to_hex(&bytes)},
+                        });
+                        let text = serde_json::to_string_pretty(&body).unwrap();
+                        let _ = std::fs::create_dir_all("/verif/replays");
+                        let path = format!("/verif/replays/{}-bytes-abnormal-{}.json", id, reported);
+                        let _ = std::fs::write(&path, text);
+                        println!("  violation sig={} ({} octets in flight)", sig, bytes.len());
+                        println!("VIOLATION property={} replay={}", id, path);
+                        reported += 1;
+                    }
+                }
+            }
+            cleanup(false);
+            if reported > 0 {
+                1
+            } else {
+                println!("INCONCLUSIVE reason=child-ended-abnormally status={:?}", other);
+                2
+            }
+        }
+    }
+}
+
 fn main() {
-    vlib::engine::install_panic_hook();
     let args: Vec<String> = std::env::args().collect();
+    if std::env::var("VCHECK_CHILD").is_err() && args.len() >= 3 {
+        std::process::exit(parent(&args));
+    }
+    vlib::engine::install_panic_hook();
+    // SQLite keeps allocation statistics under one global mutex by default, which serialises the
+    // sixteen worker threads (each with its own private database); switch the statistics off.
+    unsafe {
+        rusqlite::ffi::sqlite3_config(rusqlite::ffi::SQLITE_CONFIG_MEMSTATUS, 0 as std::os::raw::c_int);
+    }
     let code = if args.len() >= 3 && args[1] == "--replay" {
         vlib::run_replay(&args[2])
     } else if args.len() >= 3 {
